@@ -15,6 +15,11 @@ schedule labels separated by `,` (`-` = none). `S` starts the request (the worke
          TS<code> (TerminateStream on a kept handler of an EARLIER request whose pooled object this request reuses)
          TR<code>:<k>:<d><t> (TerminateStream with an in-flight response of attempt k landing inside its upstream reset)
          W (idle time: the model has no clock, the token is dropped)
+         PL<k>:<d><t> (the per-try timer of attempt k fires with a response of attempt k in flight: the worker handles the
+         reset up to doRetry's back-off sleep, the frame lands there = labels PT, `late response during the back-off`)
+         XL<k>:<reason>:<d><t> (the same after an upstream reset of attempt k)
+         XP<k>:<reason> (upstream reset of attempt k, then the per-try timer fires BEFORE the worker handles the reset:
+         labels X, PT with no worker step in between; the harness keeps the worker inside the upstream sender meanwhile)
 trace    the downstream sender calls carry the token of the answer the written part belongs to:
          dh:<status>:<eos>:<tok>  dd:<eos>:<tok>  dt:<tok>   tok = a<k> (response of attempt k) | l (local reply) | - (none)
 tm       the return values of the TerminateStream calls of the schedule (TM / TS / TR), in order: tm=<0|1>,…|-
@@ -119,8 +124,42 @@ def parseLabel (s : String) : Option Label :=
   else if s.startsWith "E" then (dropS s 1).toNat?.map Label.upEnd
   else none
 
-def parseSched (s : String) : Option (List Label) :=
-  if s == "-" then some [] else ((s.splitOn ",").filter (· != "W")).mapM parseLabel
+def parseDT (dt : String) : Option (Bool × Bool) :=
+  match dt.toList with
+  | [d, t] => do pure (← b01 d.toString, ← b01 t.toString)
+  | _ => none
+
+/-- a schedule token is one label or a compound of two; each label comes with the settle mode that follows it:
+0 = the worker runs until it blocks, 1 = … until it blocks or enters doRetry's back-off, 2 = the worker does not run -/
+def parseLabels (s : String) : Option (List (Label × Nat)) :=
+  if s.startsWith "PL" then
+    match (dropS s 2).splitOn ":" with
+    | [k, dt] => do
+      let k ← k.toNat?
+      let (d, t) ← parseDT dt
+      pure [(.perTryFire, 1), (.lateResp k d t, 0)]
+    | _ => none
+  else if s.startsWith "XL" then
+    match (dropS s 2).splitOn ":" with
+    | [k, r, dt] => do
+      let k ← k.toNat?
+      let r ← reasonOfName r
+      let (d, t) ← parseDT dt
+      pure [(.upReset k r, 1), (.lateResp k d t, 0)]
+    | _ => none
+  else if s.startsWith "XP" then
+    match (dropS s 2).splitOn ":" with
+    | [k, r] => do
+      let k ← k.toNat?
+      let r ← reasonOfName r
+      pure [(.upReset k r, 2), (.perTryFire, 0)]
+    | _ => none
+  else (parseLabel s).map (fun l => [(l, if l matches .poolFail _ | .hostsGone then 2 else 0)])
+
+def parseSchedM (s : String) : Option (List (Label × Nat)) :=
+  if s == "-" then some [] else (((s.splitOn ",").filter (· != "W")).mapM parseLabels).map List.flatten
+
+def parseSched (s : String) : Option (List Label) := (parseSchedM s).map (fun l => l.map (·.1))
 
 def fuel : Nat := 400
 
@@ -128,6 +167,19 @@ def arming : Label → Bool
   | .poolFail _ => true
   | .hostsGone => true
   | _ => false
+
+/-- the worker runs until it blocks, returns, or sleeps in doRetry's back-off -/
+def settleBackoff (c : Cfg) : Nat → S → S
+  | 0, s => s
+  | n + 1, s =>
+    if !s.running then s
+    else if s.phase == .WaitNotify && !s.notify then s
+    else if bodyWait s then s
+    else if s.phase == .Retry then s
+    else settleBackoff c n (work c s)
+
+def settleMode (c : Cfg) (m : Nat) (s : S) : S :=
+  if m == 0 then settle c fuel s else if m == 1 then settleBackoff c fuel s else s
 
 /-- the harness' discipline: every label except the arming ones is followed by settle -/
 def runSettled (c : Cfg) (s : S) (l : List Label) : S :=
@@ -167,13 +219,14 @@ structure Case where
   ar : Nat
   aq : Nat
   sched : List Label
+  modes : List Nat := []   -- settle mode after each label (parallel to `sched`; missing = by `arming`)
 
 def parseCase : List String → Option Case
   | ["hist", c, a, l] => do
     let cfg ← parseCfg c
     let (ar, aq) ← parseAmb a
-    let sched ← parseSched l
-    pure ⟨cfg, ar, aq, sched⟩
+    let sm ← parseSchedM l
+    pure ⟨cfg, ar, aq, sm.map (·.1), sm.map (·.2)⟩
   | _ => none
 
 /-- parse the implementation's output tokens back: (trace tokens, ledger, done) -/
@@ -206,19 +259,24 @@ def isTerminate : Label → Bool
 
 /-- the harness' discipline with the return values of the TerminateStream calls: a call was accepted iff it left its
 local reply pending (`directResponse` set by the call) -/
-def runSettledTm (c : Cfg) (s : S) (l : List Label) : S × List Bool :=
-  l.foldl (fun (p : S × List Bool) lb =>
-    let s1 := step c p.1 lb
-    let tm := if isTerminate lb then p.2 ++ [s1.direct && !p.1.direct] else p.2
-    (if arming lb then s1 else settle c fuel s1, tm)) (s, [])
+def runSettledTm (c : Cfg) (s : S) (l : List (Label × Nat)) : S × List Bool :=
+  l.foldl (fun (p : S × List Bool) lm =>
+    let s1 := step c p.1 lm.1
+    let tm := if isTerminate lm.1 then p.2 ++ [s1.direct && !p.1.direct] else p.2
+    (settleMode c lm.2 s1, tm)) (s, [])
 
-def modelOut (cs : Case) : S := runSettled cs.cfg (init cs.ar cs.aq) cs.sched
+/-- the labels of a case with their settle modes -/
+def Case.moded (cs : Case) : List (Label × Nat) :=
+  if cs.modes.length == cs.sched.length then cs.sched.zip cs.modes
+  else cs.sched.map (fun l => (l, if arming l then 2 else 0))
+
+def modelOut (cs : Case) : S := (runSettledTm cs.cfg (init cs.ar cs.aq) cs.moded).1
 
 def renderTm (l : List Bool) : String := if l.isEmpty then "-" else joinWith "," (l.map bs)
 
 /-- the model's output line: trace with tokens, ledger, done, TerminateStream results -/
 def renderOut (cs : Case) : String :=
-  let r := runSettledTm cs.cfg (init cs.ar cs.aq) cs.sched
+  let r := runSettledTm cs.cfg (init cs.ar cs.aq) cs.moded
   s!"{render r.1} tm={renderTm r.2}"
 
 /-- read an implementation trace token back into an event (`none` = not a token of the protocol) -/
